@@ -50,6 +50,12 @@ def main():
         rc, out = sh(["git", "-C", wt, "apply", os.path.join(sd, "patch.diff")])
         head = sh(["git", "-C", "/repo", "rev-parse", "--short", "HEAD"])[1].strip()
         base = meta.get("base_commit")
+        if rc != 0:
+            rc, out = sh(["git", "-C", wt, "apply", "-3", os.path.join(sd, "patch.diff")])
+            if rc == 0:
+                res["applied_with_3way"] = True
+            else:
+                sh(["git", "-C", wt, "checkout", "-q", "--", "."])
         if rc != 0 and base:
             # /repo moved on (fix: commits) and the patch no longer applies to HEAD: use the commit it was made against
             sh(["git", "-C", wt, "checkout", "-q", "--detach", base])
